@@ -10,12 +10,28 @@ Streams: build17, pwfun17, segcode, corr17, values17.
 import ast
 import json
 import math
+import os
+import time
 from fractions import Fraction
+from pathlib import Path
 
 import py2v
 from py2v import Untranslatable, External
 from bridge import json_to_coq, cz
 from common import coq_string, coq_list, parse_bools
+
+# test hook (mutation testing of this check on a scratch copy of the repository; ./check runs under `env -i`
+# and can never see it): the tree that is translated and executed
+REPO_ROOT = os.environ.get('VERIF_C17_REPO', '/repo')
+
+
+def load_src(rel):
+    p = Path(REPO_ROOT) / rel
+    try:
+        return py2v.Translator(p.read_text(), rel)
+    except (OSError, SyntaxError) as e:
+        raise Untranslatable(f'cannot read/parse {rel}: {e}')
+
 
 ASSUME = [
     'expression trees are compared structurally (class, payload, ordered children); the meaning of a tree is '
@@ -83,7 +99,7 @@ def _subscript(tr, node, args):
 
 
 def gen_piecewise_function():
-    tr = py2v.load('src/biogeme/models/piecewise.py')
+    tr = load_src('src/biogeme/models/piecewise.py')
     tr.__class__ = PWTranslator
     tr.externals['subscript:list (option R)'] = External(_subscript)
     fd = tr.find('piecewise_function')
@@ -164,7 +180,7 @@ EXPECTED_CORR_LOOP = (
 
 
 def gen_nl_corr():
-    tr = py2v.load('src/biogeme/nests.py')
+    tr = load_src('src/biogeme/nests.py')
     fd = tr.find('NestsForNestedLogit.correlation')
     ifexps = [n for n in ast.walk(fd) if isinstance(n, ast.IfExp)]
     if len(ifexps) != 1:
@@ -277,6 +293,7 @@ class Args:
                     a, _ = self.var([v - c for v in values])
                     b, _ = self.const(c, rng.choice(['float', 'numeric', 'int']))
                     return {'op': 'Plus', 'args': [a, b]}, list(map(Fraction, values))
+                c = rng.choice([Fraction(1, 2), Fraction(2), Fraction(4)])   # v / c stays exactly representable
                 a, _ = self.var([v / c for v in values])
                 b, _ = self.beta(c)
                 return {'op': 'Times', 'args': [b, a]}, list(map(Fraction, values))
@@ -293,6 +310,19 @@ class Args:
             b, _ = self.const(c, rng.choice(['float', 'numeric']))
             return {'op': 'Plus', 'args': [a, b]}, [v] * self.nrows
         return self.const(v, rng.choice(['float', 'numeric', 'int']))
+
+
+def numericise(a):
+    if 'float' in a:
+        return {'numeric': a['float']}
+    if 'int' in a:
+        return {'numeric': hx(a['int'])}
+    if 'op' in a:
+        l, r = a['args']
+        if all(('float' in t or 'int' in t) for t in (l, r)):
+            raise ValueError('two bare numbers')
+        return a
+    return a
 
 
 def arg_coq(a):
@@ -612,6 +642,9 @@ def gen_case(rng, kind, nrows=3):
             sa, _ = A.var([s] * nrows)
         else:
             sa, _ = A.any([s] * nrows, allow_var=False, compound=0.0)
+        if kind in ('loglikelihoodregression', 'likelihoodregression'):
+            # the signature takes Expression objects: bare numbers become Numeric(...) (sigma**2 on a float is Python arithmetic)
+            xa, ma, sa = numericise(xa), numericise(ma), numericise(sa)
         case = {'kind': kind, 'args': [xa, ma, sa]}
         out['coq'] = lambda res: (f'expr_eqb ({kind} {arg_coq(xa)} {arg_coq(ma)} {arg_coq(sa)}) {json_to_coq(res["tree"])}'
                                   if res.get('ok') else 'false')
@@ -679,8 +712,10 @@ def gen_segmentation(rng, A, nrows, force_valid=False):
     bref = grid(rng, -3, 3, 4)
     lb = None if rng.random() < 0.5 else float(bref - 5)
     ub = None if rng.random() < 0.6 else float(bref + 5)
-    A.betas[bname] = bref
     init = grid(rng, -2, 2, 4)
+    if status == 1:
+        bref = init      # get_value_c evaluates fixed parameters at their initial value
+    A.betas[bname] = bref
     beta = {'name': bname, 'value': hx(init), 'lb': None if lb is None else hx(lb), 'ub': None if ub is None else hx(ub),
             'status': status}
     nseg = rng.choice([1, 1, 2, 2, 3])
@@ -713,7 +748,7 @@ def gen_segmentation(rng, A, nrows, force_valid=False):
             if c != refname:
                 nm = f'{bname}_{c}'
                 if nm not in A.betas:
-                    A.betas[nm] = grid(rng, -3, 3, 4)
+                    A.betas[nm] = init if status == 1 else grid(rng, -3, 3, 4)
                 shifts[v] = A.betas[nm]
         for i in range(nrows):
             xv = rng.choice(values + [values[0], 77])
@@ -733,7 +768,8 @@ COQ_HEADER = ('From BV Require Import Model.Expr Model.Builders17.\n'
 
 def run_impl(ctx, cases, chunk=24):
     payloads = [{'cases': cases[i:i + chunk]} for i in range(0, len(cases), chunk)]
-    res = ctx.impl_parallel('c17_build.py', payloads, timeout=1200)
+    extra = {'PYTHONPATH': REPO_ROOT + '/src'} if REPO_ROOT != '/repo' else None
+    res = ctx.impl_parallel('c17_build.py', payloads, timeout=1200, extra_env=extra)
     return [r for part in res for r in part]
 
 
@@ -984,6 +1020,14 @@ def stream_pwfun(ctx):
 
 
 # ---------------------------------------------------------------------------- segmented_code
+def unwrap1(t):
+    """bioMultSum([e]) and e describe the same formula: when no category differs from the reference,
+    segmented_code() writes the bare Beta(...) while segmented_beta() wraps it in a one-term sum"""
+    if t.get('h') == ['MultSum'] and len(t.get('k', [])) == 1:
+        return t['k'][0]
+    return t
+
+
 def stream_segcode(ctx):
     st = ctx.stream('segcode', 'exec of Segmentation.segmented_code() in a fresh namespace (only Beta, Variable, bioMultSum, '
                     'Numeric imported) must define <prefix>_<beta> as a tree structurally equal to segmented_beta(), with '
@@ -1015,7 +1059,7 @@ def stream_segcode(ctx):
             ctx.violation('C17/segcode/exec', 'the generated specification code does not execute', c,
                           'code defining the segmented parameter', {'code': r['code'], 'error': r['exec_error']}, how)
             continue
-        if r['rebuilt'] != r['direct']:
+        if unwrap1(r['rebuilt']) != unwrap1(r['direct']):
             st.disagree(c, r['direct'], r['rebuilt'])
             ctx.violation('C17/segcode/tree', 'the generated code describes a different formula than segmented_beta()', c,
                           r['direct'], {'code': r['code'], 'rebuilt': r['rebuilt']}, how)
@@ -1097,11 +1141,13 @@ def run(ctx):
         gen_all(ctx)
     except Untranslatable as e:
         ctx.tie_broken('py2v:Piecewise', str(e))
+    t0 = time.time()
     ctx.build()
-    stream_pwfun(ctx)
-    stream_build_values(ctx)
-    stream_segcode(ctx)
-    stream_corr(ctx)
+    ctx.notes['wall_build_s'] = round(time.time() - t0, 1)
+    for f in (stream_pwfun, stream_build_values, stream_segcode, stream_corr):
+        t0 = time.time()
+        f(ctx)
+        ctx.notes['wall_' + f.__name__ + '_s'] = round(time.time() - t0, 1)
 
 
 def replay(ctx, path):
@@ -1119,7 +1165,7 @@ def replay(ctx, path):
         e = pw_plain(fr(float.fromhex(case['x'])), tsf, [fr(float.fromhex(b)) for b in case['betas']])
         still = (not r.get('ok')) or not close(float.fromhex(r['value']), e, REL_RAT, 2.0 ** -40)
     elif kind == 'segcode':
-        still = (not r.get('ok')) or 'exec_error' in r or r.get('rebuilt') != r.get('direct') or \
+        still = (not r.get('ok')) or 'exec_error' in r or unwrap1(r.get('rebuilt', {})) != unwrap1(r.get('direct', {})) or \
             r.get('rebuilt_betas') != r.get('direct_betas')
     elif kind == 'nlcorr':
         mu = Fraction(1) if case.get('mu') is None else fr(float.fromhex(case['mu']))
